@@ -1146,7 +1146,8 @@ func (mgr *Manager) UpdateTag(name string, operation UpdateTagOperation) error {
 	info := updateTagOperationInfo{convertersUpdated: false}
 	operation(&info)
 	maxUsedStreamID := uint64(0)
-	if len(info.markTagAddStreams) != 0 || len(info.markTagDelStreams) != 0 {
+	markStreams := len(info.markTagAddStreams) != 0 || len(info.markTagDelStreams) != 0
+	if markStreams {
 		if !(strings.HasPrefix(name, "mark/") || strings.HasPrefix(name, "generated/")) {
 			return fmt.Errorf("tag %q is not of type 'mark' or 'generated'", name)
 		}
@@ -1235,7 +1236,7 @@ func (mgr *Manager) UpdateTag(name string, operation UpdateTagOperation) error {
 					}
 				}
 			}
-			if maxUsedStreamID != 0 && maxUsedStreamID >= mgr.nextStreamID {
+			if markStreams && maxUsedStreamID >= mgr.nextStreamID {
 				return fmt.Errorf("unknown stream id %d", maxUsedStreamID)
 			}
 			if info.name != "" {
@@ -1320,7 +1321,7 @@ func (mgr *Manager) UpdateTag(name string, operation UpdateTagOperation) error {
 				}
 				mgr.startConverterJobIfNeeded()
 			}
-			if maxUsedStreamID != 0 {
+			if markStreams {
 				if maxUsedStreamID >= mgr.nextStreamID {
 					return fmt.Errorf("unknown stream id %d", maxUsedStreamID)
 				}
